@@ -452,6 +452,7 @@ func driver(args []string) int {
 			nw = v
 		}
 	}
+	removeStaleScratch()
 	fmt.Fprintf(os.Stderr, "[verif] property=%s engine=%s tier=%s seed=%d runs<=%d wall<=%s workers=%d\n", prop, eng.Name, tier, seed, runs, wall, nw)
 	start := time.Now()
 	self, _ := os.Executable()
@@ -629,6 +630,21 @@ func driver(args []string) int {
 	}
 	fmt.Fprintf(os.Stderr, "[verif] %s %s: %d evaluations, %d distinct non-trivial, %d violations, %.1fs\n", prop, tier, agg.Evaluations, len(nontriv), nViol, wallS)
 	return exit
+}
+
+// removeStaleScratch deletes scratch directories and race logs that a killed worker of an earlier
+// invocation left behind (older than 30 minutes, so that concurrent invocations are not disturbed).
+func removeStaleScratch() {
+	for _, base := range []string{"/dev/shm", os.TempDir()} {
+		for _, pat := range []string{"verif-c19-*", "verif-race-*"} {
+			matches, _ := filepath.Glob(filepath.Join(base, pat))
+			for _, m := range matches {
+				if st, err := os.Stat(m); err == nil && time.Since(st.ModTime()) > 30*time.Minute {
+					os.RemoveAll(m)
+				}
+			}
+		}
+	}
 }
 
 func workerEnv(eng *props.Engine, w int) []string {
